@@ -136,9 +136,20 @@ def tty_unescape(s: str) -> str:
     return JSON_ESCAPE_RE.sub(unescape, s)
 
 
+# a JSON object key made only of "@"
+AT_KEY_RE = re.compile(r'"(@+)":')
+
+
 def class_escape(s: str) -> str:
+    # NOTE a key that is already "@", "@@", ... gets one more "@" so it
+    #   cannot be mistaken for the abbreviated class marker when unpacking
+    s = AT_KEY_RE.sub(r'"@\1":', s)
     return s.replace(r'"__class__":', '"@":')
 
 
 def class_unescape(s: str) -> str:
-    return s.replace(r'"@":', r'"__class__":')
+    def unescape(m: re.Match) -> str:
+        ats = m.group(1)
+        return '"__class__":' if len(ats) == 1 else f'"{ats[1:]}":'
+
+    return AT_KEY_RE.sub(unescape, s)
